@@ -27,7 +27,7 @@ use std::io::Read;
 
 pub const DNA: &[u8] = b"ACTGN";
 pub const PROTEIN: &[u8] = b"ACDEFGHIKLMNPQRSTVWYX";
-pub const FORMATS: &[&str] = &["jaspar"];
+pub const FORMATS: &[&str] = &["jaspar", "jaspar16", "uniprobe", "transfac"];
 
 pub fn letters(alpha: &str) -> &'static [u8] {
     if alpha == "dna" {
